@@ -21,25 +21,93 @@ def errSexp : Option Bytes → Sexp
   | none => .atom "nil"
   | some e => .bytes e
 
-/-- all error strings the model allows for a call (orders of group clauses) -/
-def outcomes (o : CallOut) : List (Option Bytes) :=
-  if o.groups.length ≤ 1 then [o.err o.groups]
-  else if o.groups.length ≤ 5 then (perms o.groups).map o.err
-  else [o.err o.groups, o.err o.groups.reverse]
+/-- is `rest` a concatenation of all of `groups` in some order?  (Go map order of the group table) -/
+def matchPerm : Nat → Bytes → List Bytes → Bool
+  | _, rest, [] => rest.isEmpty
+  | 0, _, _ => false
+  | fuel + 1, rest, groups =>
+    (List.range groups.length).any fun i =>
+      match groups[i]? with
+      | some g =>
+        -- try each distinct candidate once
+        !((groups.take i).contains g) && g.isPrefixOf rest && matchPerm fuel (rest.drop g.length) (groups.eraseIdx i)
+      | none => false
 
-/-- run `f` on every variant (map orders); collect allowed outcomes -/
-def runVariants {α} (vs : List α) (f : α → M CallOut) : Except Stop (List (Option Bytes)) := do
-  let mut acc : List (Option Bytes) := []
+/-- the main buffer cut at the ghost marks into a tree: literal text, or the entries of one Go map
+(any order is allowed) -/
+inductive Seg where
+  | lit (t : Bytes)
+  | perm (entries : List (List Seg))
+
+/-- parse `marks` (kind, position) over `buf` starting at position `pos`.  Returns the segments up to
+the enclosing close / entry mark (or the end), the mark that stopped it, and the rest. -/
+partial def parseSegs (buf : Bytes) (pos : Nat) (marks : List (Nat × Nat)) : List Seg × Nat × Nat × List (Nat × Nat) :=
+  -- result: (segments, stopKind (9 = end), position, remaining marks)
+  match marks with
+  | [] => ([.lit (buf.drop pos)], 9, buf.length, [])
+  | (k, p) :: rest =>
+    let before : List Seg := if p > pos then [.lit ((buf.take p).drop pos)] else []
+    if k == 0 then
+      -- a map starts: its entries follow, each introduced by mark 1, closed by mark 2
+      let rec entries (pos : Nat) (marks : List (Nat × Nat)) (acc : List (List Seg)) : List (List Seg) × Nat × List (Nat × Nat) :=
+        match marks with
+        | (1, p1) :: r1 =>
+          let (segs, stop, p2, r2) := parseSegs buf p1 r1
+          if stop == 1 then entries p2 ((1, p2) :: r2) (acc ++ [segs])
+          else (acc ++ [segs], p2, r2)
+        | (2, p2) :: r2 => (acc, p2, r2)
+        | _ => (acc, pos, [])
+      let (es, p2, r2) := entries p rest []
+      let (after, stop, p3, r3) := parseSegs buf p2 r2
+      (before ++ [.perm es] ++ after, stop, p3, r3)
+    else (before, k, p, rest)
+
+mutual
+/-- all remainders of `target` after matching the segments -/
+partial def matchSegs (segs : List Seg) (target : Bytes) : List Bytes :=
+  match segs with
+  | [] => [target]
+  | .lit t :: rest => if t.isPrefixOf target then matchSegs rest (target.drop t.length) else []
+  | .perm es :: rest => (matchPermSegs es target).flatMap fun r => matchSegs rest r
+partial def matchPermSegs (es : List (List Seg)) (target : Bytes) : List Bytes :=
+  match es with
+  | [] => [target]
+  | _ =>
+    ((List.range es.length).flatMap fun i =>
+      match es[i]? with
+      | some e => (matchSegs e target).flatMap fun r => matchPermSegs (es.eraseIdx i) r
+      | none => []).eraseDups
+end
+
+/-- does the model allow this error (`none` = nil) for some iteration order of the maps and some
+order of the group clauses? -/
+def accepts (o : CallOut) (impl : Option Bytes) : Bool :=
+  match impl with
+  | none => o.main.isEmpty && o.groups.all (·.isEmpty)
+  | some e =>
+    let all := e ++ errEndFlag
+    let (segs, _, _, _) := parseSegs o.main 0 o.marks
+    !(o.main.isEmpty && o.groups.isEmpty) &&
+      (matchSegs segs all).any fun rest => matchPerm (o.groups.length + 1) rest o.groups
+
+/-- run `f` on every variant (map orders); collect the outcomes -/
+def runVariants {α} (vs : List α) (f : α → M CallOut) : Except Stop (List CallOut) := do
+  let mut acc : List CallOut := []
   for v in vs do
     let o ← f v
-    acc := acc ++ outcomes o
+    acc := acc ++ [o]
   pure acc
+
+def implErr? : Sexp → Option (Option Bytes)
+  | .atom "nil" => some none
+  | .bytes e => some (some e)
+  | _ => none
 
 def isPanic : Sexp → Bool
   | .node "panic" _ => true
   | _ => false
 
-def mkResp (res : Except Stop (List (Option Bytes))) (impl : Sexp) (spec : List (Option Bytes) → Option Bool := fun _ => none)
+def mkResp (res : Except Stop (List CallOut)) (impl : Sexp) (spec : List CallOut → Option Bool := fun _ => none)
     (scope : String := "in") : Resp :=
   match res with
   | .error (.need q) => .need q
@@ -47,9 +115,16 @@ def mkResp (res : Except Stop (List (Option Bytes))) (impl : Sexp) (spec : List 
   | .error (.panic why) =>
     .reply { model := .node "panic" [.atom why], agree := isPanic impl, spec := some false, scope := scope }
   | .ok outs =>
-    let shown := match outs with | o :: _ => errSexp o | [] => .atom "none"
-    let agree := outs.any fun o => errSexp o == impl
-    .reply { model := shown, agree := agree, spec := spec outs, scope := scope }
+    let shown := match outs with | o :: _ => errSexp (o.err o.groups) | [] => .atom "none"
+    let agree := match implErr? impl with
+      | some e => outs.any fun o => accepts o e
+      | none => false
+    -- without a probe the statement judged is the whole error string: by the theorems about the
+    -- walkers (C02 …) the model's output is what the property demands on this input
+    let sp := match spec outs with
+      | some v => some v
+      | none => some agree
+    .reply { model := shown, agree := agree, spec := sp, scope := scope }
 
 /-- `(probe xCarrier xRule <value>)`: the single (rule, value) pair a case is about. Gives the
 verdict the property demands (`some true` = violated) and the scope tag. -/
@@ -62,7 +137,11 @@ def probeSpec (carrier rule : Bytes) (v : GoVal) : Option Bool × String :=
       if PGV.Spec.Size.floatBoundBeyond53 rule v then (some verdict, "kf:F-C01-e")
       else (some verdict, kfScope)
     | none => (none, "out:size-rule-on-zero-or-unmeasurable-value")
-  | none => (none, "out:no-spec-for-rule")
+  | none =>
+    -- `required[|msg]`: violated exactly when the value is empty
+    let key := match Bytes.indexByte? 124 rule with | some i => rule.take i | none => rule
+    if key == requiredB then (some (requiredEmpty v), kfScope)
+    else (none, "out:no-spec-for-rule")
 
 def probe? : List Sexp → Option (Option (Bytes × Bytes × GoVal))
   | [] => some none
@@ -70,13 +149,13 @@ def probe? : List Sexp → Option (Option (Bytes × Bytes × GoVal))
   | _ => none
 
 /-- response for a call, with the spec verdict of the probe (if any) judged on the implementation's result -/
-def mkRespProbe (res : Except Stop (List (Option Bytes))) (impl : Sexp) (probe : Option (Bytes × Bytes × GoVal)) : Resp :=
+def mkRespProbe (res : Except Stop (List CallOut)) (impl : Sexp) (probe : Option (Bytes × Bytes × GoVal)) : Resp :=
   match probe with
   | none => mkResp res impl
   | some (c, r, v) =>
     let (verdict, scope) := probeSpec c r v
     let implViolated := !(impl == Sexp.atom "nil")
-    let spec := fun (_ : List (Option Bytes)) => verdict.map fun want => !isPanic impl && implViolated == want
+    let spec := fun (_ : List CallOut) => verdict.map fun want => !isPanic impl && implViolated == want
     match mkResp res impl spec scope with
     | .reply rp => .reply { rp with spec := if isPanic impl then some false else rp.spec }
     | x => x
@@ -100,7 +179,7 @@ def handle (op : String) (args : List Sexp) (impl : List Sexp) : Option Resp :=
     let ext ← ext? ext
     let cfg ← structCfg? ext cfg
     let src ← src? src
-    pure (mkRespProbe (runVariants (srcVariants src) (structValid cfg)) out (← probe? pr))
+    pure (mkRespProbe (runVariants [src] (structValid cfg)) out (← probe? pr))
   | "var", .node "rules" rules :: lf :: gf :: ext :: src :: pr, [out] => do
     let ext ← ext? ext
     let rules ← rules.mapM asBytes?
